@@ -192,9 +192,12 @@ type ReadFault struct {
 }
 
 type FaultJob struct {
-	Args      []string    `json:"args"`
-	SinkLimit int         `json:"sink_limit"`
-	Reads     []ReadFault `json:"reads,omitempty"`
+	Args      []string `json:"args"`
+	SinkLimit int      `json:"sink_limit"`
+	// SinkKind: which error the sink returns once it fails: "" a made-up one, "epipe" / "enospc" / "closed" the
+	// real error values of a pipe without reader, a full device, a closed file
+	SinkKind string      `json:"sink_kind,omitempty"`
+	Reads    []ReadFault `json:"reads,omitempty"`
 }
 
 type ReaderState struct {
